@@ -1,6 +1,8 @@
 (* Basic facts about the byte conversions and the generated lookup tables; lifting of exhaustive
    boolean sweeps (`forallb ... = true` by vm_compute) to universally quantified statements. *)
-From RV Require Import Model.F32 Gen.PixelTables Model.Pixel.
+From RV Require Import Model.F32.
+From RV Require Import Gen.PixelTables.
+From RV Require Import Model.Pixel.
 From Flocq Require Import Core BinarySingleNaN.
 Local Open Scope Z_scope.
 
@@ -24,6 +26,19 @@ Lemma sweep2 (P : Z -> Z -> bool) :
 Proof.
   intros H c a Hc Ha. rewrite forallb_forall in H.
   specialize (H a (proj2 (bytes_spec a) Ha)). cbv beta in H.
+  rewrite forallb_forall in H. apply H, bytes_spec, Hc.
+Qed.
+
+(* sweep with the per-alpha float computed once per row (keeps vm_compute at ~30 s per 65 536 pairs).
+   The lifted statement is syntactically the sweep's own body, so no conversion of closed float
+   terms is ever attempted by the kernel. *)
+Definition sweep_let {T : Type} (F : Z -> T) (P : Z -> Z -> T -> bool) : bool :=
+  forallb (fun a => let fa := F a in forallb (fun c => P c a fa) bytes) bytes.
+Lemma sweep_let_spec {T : Type} (F : Z -> T) (P : Z -> Z -> T -> bool) :
+  sweep_let F P = true -> forall c a, is_byte c -> is_byte a -> P c a (F a) = true.
+Proof.
+  unfold sweep_let. intros H c a Hc Ha. rewrite forallb_forall in H.
+  specialize (H a (proj2 (bytes_spec a) Ha)). cbv beta zeta in H.
   rewrite forallb_forall in H. apply H, bytes_spec, Hc.
 Qed.
 
